@@ -38,11 +38,22 @@ pub mod axioms {
 broadcast use axioms::axiom_str_len_fits;
 
 // ------------------------------------------------------------------ iterator shims (R2), ASSUMED
+// `remaining(it)`: the items the iterator will still yield, in order (uninterpreted; NOT vstd's prophetic IteratorSpec::remaining,
+// whose prophecy typing forbids ghost-variable use). Linked to real data only through the shims below.
 pub uninterp spec fn remaining<I: Iterator>(it: &I) -> Seq<I::Item>;
-pub uninterp spec fn into_remaining<I: IntoIterator>(it: &I) -> Seq<I::Item>;
+pub open spec fn into_remaining<I: Iterator>(it: &I) -> Seq<I::Item> { remaining(it) }
 
+// R2d: `S.iter()` -> `shim_slice_iter(S)`: a fresh slice iterator yields the slice's elements in order (std contract)
 #[verifier::external_body]
-pub fn shim_into_iter<I: IntoIterator>(i: I) -> (r: I::IntoIter)
+pub fn shim_slice_iter<'a, T>(s: &'a [T]) -> (r: Iter<'a, T>)
+    ensures remaining(&r) == s@.as_ref(),
+{
+    s.iter()
+}
+
+// the loops rewritten by R2 all iterate over values that already are iterators: IntoIterator::into_iter is the identity there
+#[verifier::external_body]
+pub fn shim_into_iter<I: Iterator>(i: I) -> (r: I)
     ensures remaining(&r) == into_remaining(&i),
 {
     i.into_iter()
@@ -129,6 +140,7 @@ pub fn shim_chain<'a>(a: Iter<'a, Label>, b: Iter<'a, Label>) -> (r: std::iter::
 }
 
 // ------------------------------------------------------------------ wire format (specification)
+pub open spec fn refs<'a>(s: Seq<Label>) -> Seq<&'a Label> { s.as_ref() }   // vstd: s.iter().remaining() == s@.as_ref()
 pub open spec fn lit2(a: u8, b: u8) -> Seq<u8> { seq![a, b] }
 
 pub open spec fn tag_bytes(l: &Label) -> Seq<u8> {
@@ -212,6 +224,47 @@ pub fn shim_copy_into(v: &mut Vec<u8>, a: usize, b: usize, src: &[u8])
     v[a..b].copy_from_slice(src);
 }
 
+
+//@ITEM file=metrics-exporter-dogstatsd/src/writer.rs sel=struct WriteResult
+//@END
+
+impl WriteResult {
+//@ITEM file=metrics-exporter-dogstatsd/src/writer.rs sel=impl WriteResult :: fn success ret=r
+//@SPEC
+    ensures r.payloads_written == payloads_written, r.points_dropped == 0,
+//@END
+//@ITEM file=metrics-exporter-dogstatsd/src/writer.rs sel=impl WriteResult :: fn failure ret=r
+//@SPEC
+    ensures r.payloads_written == 0, r.points_dropped == points_dropped,
+//@END
+//@ITEM file=metrics-exporter-dogstatsd/src/writer.rs sel=impl WriteResult :: fn new ret=r
+//@SPEC
+    ensures r.payloads_written == 0, r.points_dropped == 0,
+//@END
+//@ITEM file=metrics-exporter-dogstatsd/src/writer.rs sel=impl WriteResult :: fn increment_payloads_written
+//@SPEC
+    requires old(self).payloads_written < u64::MAX,
+    ensures final(self).payloads_written == old(self).payloads_written + 1, final(self).points_dropped == old(self).points_dropped,
+//@END
+//@ITEM file=metrics-exporter-dogstatsd/src/writer.rs sel=impl WriteResult :: fn increment_points_dropped
+//@SPEC
+    requires old(self).points_dropped < u64::MAX,
+    ensures final(self).points_dropped == old(self).points_dropped + 1, final(self).payloads_written == old(self).payloads_written,
+//@END
+//@ITEM file=metrics-exporter-dogstatsd/src/writer.rs sel=impl WriteResult :: fn any_failures ret=r
+//@SPEC
+    ensures r == (self.points_dropped != 0),
+//@END
+//@ITEM file=metrics-exporter-dogstatsd/src/writer.rs sel=impl WriteResult :: fn payloads_written ret=r
+//@SPEC
+    ensures r == self.payloads_written,
+//@END
+//@ITEM file=metrics-exporter-dogstatsd/src/writer.rs sel=impl WriteResult :: fn points_dropped ret=r
+//@SPEC
+    ensures r == self.points_dropped,
+//@END
+}
+
 //@ITEM file=metrics-exporter-dogstatsd/src/writer.rs sel=struct PayloadWriter
 //@END
 
@@ -278,6 +331,9 @@ impl PayloadWriter {
         final(self).trailer_buf == old(self).trailer_buf,
         final(self).tail() == Seq::<u8>::empty(),
         ok <==> old(self).tail().len() <= old(self).max_payload_len,
+        forall|i: int| 0 <= i < old(self).nframes() ==> #[trigger] final(self).frame(i) == old(self).frame(i),
+        final(self).nframes() == old(self).nframes() + (if ok { 1int } else { 0int }),
+        ok ==> final(self).payload(old(self).nframes()) == old(self).tail(),
         !ok ==> final(self).offsets@ == old(self).offsets@
             && final(self).buf@.subrange(0, old(self).last()) == old(self).buf@.subrange(0, old(self).last()),
         ok ==> final(self).offsets@ == old(self).offsets@.push(old(self).buf@.len() as usize)
@@ -285,9 +341,12 @@ impl PayloadWriter {
             && final(self).frame(old(self).nframes()).subrange(old(self).plen(), old(self).plen() + old(self).tail().len()) == old(self).tail(),
 //@BEFORE 1 return false;
             proof {
-                assert forall|i: int| 0 <= i < self.offsets@.len() implies #[trigger] self.frame_ok(i) by {
+                assert forall|i: int| 0 <= i < self.offsets@.len() implies #[trigger] self.frame(i) == old(self).frame(i) by {
                     old(self).lemma_mono(i, old(self).offsets@.len() - 1);
                     old(self).lemma_mono(i - 1, old(self).offsets@.len() - 1);
+                    assert(old(self).frame_ok(i));
+                }
+                assert forall|i: int| 0 <= i < self.offsets@.len() implies #[trigger] self.frame_ok(i) by {
                     assert(old(self).frame_ok(i));
                     assert(self.frame(i) == old(self).frame(i));
                 }
@@ -298,13 +357,18 @@ impl PayloadWriter {
 //@BEFORE 1 true
         proof {
             let n = old(self).offsets@.len() as int;
-            assert forall|i: int| 0 <= i < n implies #[trigger] self.frame_ok(i) by {
+            assert forall|i: int| 0 <= i < n implies #[trigger] self.frame(i) == old(self).frame(i) by {
                 old(self).lemma_mono(i, n - 1);
                 old(self).lemma_mono(i - 1, n - 1);
                 assert(old(self).frame_ok(i));
                 assert(self.off(i) == old(self).off(i));
                 assert(self.off(i - 1) == old(self).off(i - 1));
+            }
+            assert forall|i: int| 0 <= i < n implies #[trigger] self.frame_ok(i) by {
+                assert(old(self).frame_ok(i));
                 assert(self.frame(i) == old(self).frame(i));
+                assert(self.off(i) == old(self).off(i));
+                assert(self.off(i - 1) == old(self).off(i - 1));
             }
             let f = self.frame(n);
             let l0 = old(self).last();
@@ -319,6 +383,7 @@ impl PayloadWriter {
                 assert(f.len() - 4 == current_len);
             }
             assert(self.frame_ok(n));
+            assert(self.payload(n) =~= old(self).tail());
             assert forall|i: int| 0 <= i < self.offsets@.len() implies #[trigger] self.off(i) <= self.buf@.len() by {
                 if i < n { assert(old(self).off(i) <= old(self).buf@.len()); assert(self.off(i) == old(self).off(i)); }
             }
@@ -331,6 +396,85 @@ impl PayloadWriter {
     ensures w.wf(), w.nframes() == 0, w.tail() == Seq::<u8>::empty(),
         w.max_payload_len == max_payload_len, w.with_length_prefix == with_length_prefix,
 //@END
+
+    /// payload (header stripped) of the i-th committed frame
+    spec fn payload(&self, i: int) -> Seq<u8> { self.frame(i).subrange(self.plen(), self.frame(i).len() as int) }
+
+    /// same committed frames, same configuration; only the uncommitted tail / trailer scratch may differ
+    spec fn same_frames(&self, o: &PayloadWriter) -> bool {
+        &&& self.offsets@ == o.offsets@
+        &&& self.max_payload_len == o.max_payload_len
+        &&& self.with_length_prefix == o.with_length_prefix
+        &&& self.buf@.len() >= o.last() + o.plen()
+        &&& self.buf@.subrange(0, o.last() + o.plen()) == o.buf@.subrange(0, o.last() + o.plen())
+    }
+
+    proof fn lemma_same_frames(&self, o: &PayloadWriter)
+        requires o.wf(), self.same_frames(o),
+        ensures self.wf(), forall|i: int| 0 <= i < o.nframes() ==> #[trigger] self.frame(i) == o.frame(i),
+    {
+        assert forall|i: int| 0 <= i < o.nframes() implies #[trigger] self.frame(i) == o.frame(i) by {
+            o.lemma_mono(i, o.nframes() - 1);
+            o.lemma_mono(i - 1, o.nframes() - 1);
+            assert(o.frame_ok(i));
+            assert(self.off(i) == o.off(i));
+            assert(self.off(i - 1) == o.off(i - 1));
+            let l = o.last() + o.plen();
+            let (a, b) = (o.off(i - 1), o.off(i));
+            assert(0 <= a <= b <= l);
+            assert(self.buf@.subrange(0, l).subrange(a, b) =~= self.buf@.subrange(a, b));
+            assert(o.buf@.subrange(0, l).subrange(a, b) =~= o.buf@.subrange(a, b));
+        }
+        assert forall|i: int| 0 <= i < self.offsets@.len() implies #[trigger] self.frame_ok(i) by {
+            assert(o.frame_ok(i));
+            assert(self.frame(i) == o.frame(i));
+        }
+        assert forall|i: int| 0 <= i < self.offsets@.len() implies #[trigger] self.off(i) <= self.buf@.len() by {
+            o.lemma_mono(i, o.nframes() - 1);
+        }
+    }
+
+//@ITEM file=metrics-exporter-dogstatsd/src/writer.rs sel=impl PayloadWriter :: fn write_trailing
+//@REWRITE R2d global_labels.iter() ==> shim_slice_iter(global_labels)
+//@SPEC
+    ensures
+        final(self).buf@ == old(self).buf@ + trailer_bytes(None, refs(global_labels@) + key.label_seq(), timestamp),
+        final(self).offsets == old(self).offsets,
+        final(self).max_payload_len == old(self).max_payload_len,
+        final(self).with_length_prefix == old(self).with_length_prefix,
+        final(self).trailer_buf == old(self).trailer_buf,
+//@END
+
+//@ITEM file=metrics-exporter-dogstatsd/src/writer.rs sel=impl PayloadWriter :: fn write_counter ret=r
+//@SPEC
+    requires old(self).wf(), old(self).tail().len() == 0,
+    ensures
+        final(self).wf(), final(self).tail().len() == 0,
+        final(self).max_payload_len == old(self).max_payload_len,
+        final(self).with_length_prefix == old(self).with_length_prefix,
+        forall|i: int| 0 <= i < old(self).nframes() ==> #[trigger] final(self).frame(i) == old(self).frame(i),
+        ({
+            let line = prefix_bytes(prefix) + key.name_bytes() + seq![58u8] + itoa_bytes(value) + lit2(124, 99)
+                + trailer_bytes(None, refs(global_labels@) + key.label_seq(), timestamp);
+            if line.len() <= old(self).max_payload_len {
+                r.payloads_written == 1 && r.points_dropped == 0 && final(self).nframes() == old(self).nframes() + 1
+                    && final(self).payload(old(self).nframes()) == line
+            } else {
+                r.payloads_written == 0 && r.points_dropped == 1 && final(self).nframes() == old(self).nframes()
+            }
+        }),
+//@BEFORE 1 if self.commit() {
+        let ghost pre = *self;
+        proof {
+            let line = prefix_bytes(prefix) + key.name_bytes() + seq![58u8] + itoa_bytes(value) + lit2(124, 99)
+                + trailer_bytes(None, refs(global_labels@) + key.label_seq(), timestamp);
+            assert(self.buf@ =~= old(self).buf@ + line);
+            assert(self.buf@.subrange(0, old(self).last() + old(self).plen()) =~= old(self).buf@.subrange(0, old(self).last() + old(self).plen()));
+            self.lemma_same_frames(old(self));
+            assert(self.tail() =~= line);
+        }
+//@END
+
 }
 
 } // verus!
